@@ -135,6 +135,9 @@ type DataPlan struct {
 	Status      []StatusCall `json:"status,omitempty"`
 	PanicBefore bool         `json:"panic_before,omitempty"` // panic before any status
 	PanicAfter  bool         `json:"panic_after,omitempty"`  // panic after the statuses
+	// PanicOnReadErr: a backend that does not cope with a message cut short:
+	// it panics when its reader ends with anything but end-of-file
+	PanicOnReadErr bool `json:"panic_on_read_err,omitempty"`
 }
 
 // SASLScript scripts the server-side mechanism handed out by Auth.
@@ -679,6 +682,9 @@ func (s *session) deliver(cb string, r io.Reader, sc smtp.StatusCollector) (err 
 		}
 	}
 	readMessage(r, plan.Read, rec)
+	if plan.PanicOnReadErr && rec.Err != nil && rec.Err != io.EOF {
+		panic("scripted backend panic: the message was cut short (" + rec.ErrStr + ")")
+	}
 	if sc != nil {
 		for i, st := range plan.Status {
 			if st.AfterRead {
